@@ -37,7 +37,10 @@ type rtCase struct {
 }
 
 // rendering of the spec's small integers into names, contents, targets and opaque digests
-func rtName(n int) string { return string(rune('a' + n - 1)) }
+// names whose byte order is the numeric order of the spec's names; `ab` and `a/b` differ only in the separator
+var rtNames = []string{"a", "ab", "b", "bc", "c", "d", "e", "f"}
+
+func rtName(n int) string { return rtNames[n-1] }
 func rtPath(p []int) string {
 	s := make([]string, len(p))
 	for i, n := range p {
